@@ -90,7 +90,7 @@ def parse_mir(text):
             fns.append(cur)
             bb = None
             continue
-        m = re.match(r"^const ([\w:]+): (\w+) = const (-?\d+)_(\w+);$", line)
+        m = re.match(r"^const (.+?): (\w+) = const (-?\d+)_(\w+);$", line)
         if m:
             consts[m.group(1)] = (int(m.group(3)), m.group(4))
             continue
@@ -152,6 +152,17 @@ class Ref:
 
 class Unsupported(Exception):
     pass
+
+
+class AnyConst:
+    """a named constant whose value the query does not depend on (fresh symbol of the peer operand's width)"""
+    n = 0
+
+
+class StrObj:
+    """&str of symbolic length"""
+    def __init__(self, n):
+        self.n = n
 
 
 class Path:
@@ -254,6 +265,14 @@ class Exec:
             return bv(int(m.group(1)), m.group(2))
         if op.startswith("const ZeroSized"):
             return Obj({})
+        if op.startswith("const ") and "{constant#" in op:
+            return AnyConst()
+        if op.startswith("const ") and re.match(r"^const [\w:<> ]*::([A-Z_][A-Z0-9_]*)$", op):
+            short = op.split("::")[-1]
+            vals = {v for k, v in self.consts.items() if k.split("::")[-1] == short}
+            if len(vals) == 1:
+                v, t = list(vals)[0]
+                return bv(v, t)
         if op == "const true":
             return z3.BoolVal(True)
         if op == "const false":
@@ -285,16 +304,28 @@ class Exec:
 
     def rvalue(self, fn, frame, dst, rhs):
         rhs = rhs.strip()
+        if rhs.startswith("no_retag "):
+            rhs = rhs[len("no_retag "):]
         m = re.match(r"^(\w+)\((.*)\)$", rhs)
         ty = fn.locals.get(dst, "")
         if m and m.group(1) in ("Add", "Sub", "Mul", "BitAnd", "BitOr", "BitXor", "Shl", "Shr", "Lt", "Le", "Gt", "Ge", "Eq", "Ne",
-                                "AddWithOverflow", "SubWithOverflow", "MulWithOverflow", "Not", "AddUnchecked", "SubUnchecked"):
+                                "AddWithOverflow", "SubWithOverflow", "MulWithOverflow", "Not", "AddUnchecked", "SubUnchecked", "Rem", "Div"):
             args = [self.operand(frame, a) for a in split_top(m.group(2))]
             op = m.group(1)
             if op == "Not":
                 a = args[0]
                 return z3.Not(a) if z3.is_bool(a) else ~a
             a, b = args
+            if isinstance(a, AnyConst):
+                AnyConst.n += 1
+                a = z3.BitVec("anyconst_%d" % AnyConst.n, b.size())
+            if isinstance(b, AnyConst):
+                AnyConst.n += 1
+                b = z3.BitVec("anyconst_%d" % AnyConst.n, a.size())
+            if op == "Rem":
+                return z3.URem(a, b)
+            if op == "Div":
+                return z3.UDiv(a, b)
             if op in ("Shl", "Shr"):
                 if b.size() != a.size():
                     b = z3.ZeroExt(a.size() - b.size(), b) if b.size() < a.size() else z3.Extract(a.size() - 1, 0, b)
@@ -383,6 +414,18 @@ class Exec:
             for i in range(n):
                 sink.trace.append(z3.Extract(8 * i + 7, 8 * i, v))
             return None
+        if callee == "core::str::<impl str>::len":
+            return self.deref(a[0]).n
+        if callee == "core::str::<impl str>::as_bytes":
+            return ("bytes", self.deref(a[0]).n)
+        if callee == "<dyn AmlSink as AmlSink>::vec" and isinstance(a[1], tuple) and a[1][0] == "bytes":
+            self.deref(a[0]).trace.append(("opaque", a[1][1]))
+            return None
+        m = re.match(r"^(\w+)::len$", callee)
+        if m:
+            t = m.group(1)
+            target = self.find(lambda f: f.name.endswith("::len") and f.params and f.params[0][1] == "&" + t)
+            return ("inline", target, a)
         m = re.match(r"^core::num::<impl (\w+)>::checked_(add|sub)$", callee)
         if m:
             x, y = a[0], a[1]
@@ -856,6 +899,72 @@ def drive_c18_pkglen(rep, profile, ex):
     return n
 
 
+def drive_c18_isa(rep, profile, ex):
+    """RHCT IsaStringNode::to_aml_bytes over a string of symbolic length n: if it RETURNS, the 16-bit node
+    length must equal the bytes emitted and the 16-bit string length must equal n + 1 (no truncation).
+    The witness of a failure is a string length of ~64 KiB, which no CBMC harness can materialise."""
+    fn = ex.find(lambda f: f.name.endswith("::to_aml_bytes") and f.params and f.params[0][1] == "&IsaStringNode")
+    n = z3.BitVec("isa_string_len", 64)
+    obj = Obj({0: StrObj(n)})
+    sink = Sink()
+    paths = ex.run(fn, [obj, sink])
+    dom = [z3.ULT(n, 1 << 40)]
+    cnt = 0
+    for i, p in enumerate(paths):
+        if p["panic"] is not None:
+            continue
+        tr = find_sink(p["frame"]).trace
+        emitted = z3.BitVecVal(0, 64)
+        flat = []
+        for t in tr:
+            if isinstance(t, tuple) and t[0] == "opaque":
+                emitted = emitted + t[1]
+            else:
+                emitted = emitted + 1
+                flat.append(t)
+        # layout: type(2) length(2) revision(2) strlen(2) <string> NUL [pad]
+        node_len = z3.ZeroExt(48, z3.Concat(flat[3], flat[2]))
+        str_len = z3.ZeroExt(48, z3.Concat(flat[7], flat[6]))
+        ok = z3.And(node_len == emitted, str_len == n + 1, z3.URem(emitted, 2) == 0)
+        t0 = time.time()
+        r, model, s = decide(dom + p["cond"] + [z3.Not(ok)])
+        cnt += 1
+        name = "C18/%s/IsaStringNode::to_aml_bytes returns with a truncated 16-bit length/path%d" % (profile, i)
+        if r == "sat":
+            nv = model.eval(n, model_completion=True).as_long()
+            rep.q(name, "sat", "isa_string_len = %d" % nv, time.time() - t0)
+            rep.violations.append({"query": "C18/%s/IsaStringNode" % profile, "profile": profile,
+                                   "desc": "returns a node whose 16-bit length fields disagree with the content for an ISA string of %d bytes" % nv,
+                                   "replay_rs": REPLAY_ISA % {"n": nv}})
+        elif r == "unsat":
+            r2, _m, _s = decide(dom + p["cond"])
+            rep.q(name, "unsat", "feasible=%s" % r2, time.time() - t0)
+        else:
+            rep.broken.append(name + ": solver " + r)
+    return cnt
+
+
+REPLAY_ISA = """// replay of an SMT counterexample: an ISA string of %(n)d bytes must be refused or encoded consistently
+use acpi_tables::{rhct::RHCT, Aml};
+#[test]
+fn replay() {
+    let s: &'static str = Box::leak("a".repeat(%(n)d).into_boxed_str());
+    let r = std::panic::catch_unwind(move || {
+        let mut t = RHCT::new([0; 6], [0; 8], 0, 1);
+        t.add_isa_string(s);
+        let mut v: Vec<u8> = Vec::new();
+        t.to_aml_bytes(&mut v);
+        v
+    });
+    if let Ok(v) = r {
+        let node_len = u16::from_le_bytes([v[58], v[59]]) as usize;
+        let str_len = u16::from_le_bytes([v[62], v[63]]) as usize;
+        assert_eq!(node_len, v.len() - 56, "node length field vs bytes emitted");
+        assert_eq!(str_len, %(n)d + 1, "string length field");
+    }
+}
+"""
+
 NARROW = re.compile(r"^\s*(_\d+) = (?:move|copy) (\S+) as (u8|u16|u32) \(IntToInt\);")
 
 
@@ -901,6 +1010,7 @@ def run(prop, tier, seed, what):
             elif prop == "C18":
                 drive_c18_ranges(rep, profile, ex)
                 drive_c18_pkglen(rep, profile, ex)
+                drive_c18_isa(rep, profile, ex)
                 if profile == "release":
                     out["narrowing_cast_census"] = census(fns)
         except Unsupported as e:
